@@ -4,7 +4,9 @@ mod c02;
 mod c03;
 mod c07;
 mod c08;
+mod c14;
 mod c19;
+mod c20;
 mod inproc;
 mod util;
 
@@ -24,7 +26,9 @@ pub fn replay_dispatch(prop: &str, layer: &str, case: &serde_json::Value) -> Res
         "C03" => c03::replay(layer, case),
         "C07" => c07::replay(layer, case),
         "C08" => c08::replay(layer, case),
+        "C14" => c14::replay(layer, case),
         "C19" => c19::replay(layer, case),
+        "C20" => c20::replay(layer, case),
         _ => Err(format!("no replay handler for property {prop}")),
     }
 }
@@ -119,7 +123,9 @@ fn main() {
         "C03" => c03::run(&mut run, &ctx),
         "C07" => c07::run(&mut run, &ctx),
         "C08" => c08::run(&mut run, &ctx),
+        "C14" => c14::run(&mut run, &ctx),
         "C19" => c19::run(&mut run, &ctx),
+        "C20" => c20::run(&mut run, &ctx),
         _ => {
             eprintln!("unknown property {prop}");
             std::process::exit(2);
